@@ -361,35 +361,30 @@ PPL::Polyhedron::relation_with(const Congruence& cg) const {
     // The point is not lying on the hyperplane.
     expr += signed_distance;
   }
-  // Build first halfspace constraint.
+  // The point lies strictly between two consecutive hyperplanes
+  // satisfying the congruence: since the polyhedron is convex, it
+  // intersects the set of solutions if and only if it intersects one of
+  // these two hyperplanes (possibly only touching it on its boundary).
   const bool positive = (signed_distance > 0);
-  const Constraint first_halfspace = positive ? (expr >= 0) : (expr <= 0);
 
-  const Poly_Con_Relation first_rels = relation_with(first_halfspace);
-  PPL_ASSERT(!first_rels.implies(Poly_Con_Relation::saturates())
-             && !first_rels.implies(Poly_Con_Relation::is_disjoint()));
-  if (first_rels.implies(Poly_Con_Relation::strictly_intersects())) {
+  const Poly_Con_Relation first_rels = relation_with(expr == 0);
+  if (!first_rels.implies(Poly_Con_Relation::is_disjoint())) {
     return Poly_Con_Relation::strictly_intersects();
   }
 
-  // Build second halfspace.
+  // Build the second hyperplane.
   if (positive) {
     expr -= modulus;
   }
   else {
     expr += modulus;
   }
-  const Constraint second_halfspace = positive ? (expr <= 0) : (expr >= 0);
 
-  PPL_ASSERT(first_rels == Poly_Con_Relation::is_included());
-  const Poly_Con_Relation second_rels = relation_with(second_halfspace);
-  PPL_ASSERT(!second_rels.implies(Poly_Con_Relation::saturates())
-             && !second_rels.implies(Poly_Con_Relation::is_disjoint()));
-  if (second_rels.implies(Poly_Con_Relation::strictly_intersects())) {
+  const Poly_Con_Relation second_rels = relation_with(expr == 0);
+  if (!second_rels.implies(Poly_Con_Relation::is_disjoint())) {
     return Poly_Con_Relation::strictly_intersects();
   }
 
-  PPL_ASSERT(second_rels == Poly_Con_Relation::is_included());
   return Poly_Con_Relation::is_disjoint();
 }
 
